@@ -140,6 +140,7 @@ func edgeFacts(iff *ssa.If, idx int) []string {
 	truth := idx == 0
 	cond := iff.Cond
 	for {
+		cond = canon(cond)
 		if u, ok := cond.(*ssa.UnOp); ok && u.Op == token.NOT {
 			cond = u.X
 			truth = !truth
@@ -486,29 +487,62 @@ func (c *Ctx) RequireFailureWithFacts(rule string, f *ssa.Function, errName stri
 		if ri.ErrIdx < 0 || ri.ErrIdx >= len(ri.Ret.Results) {
 			continue
 		}
-		if !mentions(canon(ri.Ret.Results[ri.ErrIdx]), readsGlobal(errName), 4, nil) {
-			continue
-		}
-		have := factsAt(ri.Ret)
-		all := true
-		for _, w := range want {
-			ok := false
-			for _, alt := range strings.Split(w, " | ") {
-				if have[alt] {
-					ok = true
+		for _, og := range valueOrigins(canon(ri.Ret.Results[ri.ErrIdx]), ri.Ret) {
+			if !mentions(og.val, readsGlobal(errName), 4, nil) {
+				continue
+			}
+			have := factsAt(og.at)
+			all := true
+			for _, w := range want {
+				ok := false
+				for _, alt := range strings.Split(w, " | ") {
+					if have[alt] {
+						ok = true
+					}
+				}
+				if !ok {
+					all = false
+					detail = "return at " + c.Pos(retPos(ri.Ret)) + " lacks fact [" + w + "]; facts: " + factList(have)
 				}
 			}
-			if !ok {
-				all = false
-				detail = "return at " + c.Pos(retPos(ri.Ret)) + " lacks fact [" + w + "]; facts: " + factList(have)
+			if all {
+				found = true
+				detail = "return at " + c.Pos(retPos(ri.Ret))
 			}
-		}
-		if all {
-			found = true
-			detail = "return at " + c.Pos(retPos(ri.Ret))
 		}
 	}
 	c.Require(rule, key, found, "%s", detail)
+}
+
+// valueOrigins splits a value used at instruction `at` into the places it
+// comes from: a φ contributes each input together with the terminator of the
+// predecessor that supplies it (facts dominating that point hold whenever the
+// input is chosen); anything else is its own origin.
+type valueOrigin struct {
+	val ssa.Value
+	at  ssa.Instruction
+}
+
+func valueOrigins(v ssa.Value, at ssa.Instruction) []valueOrigin {
+	var out []valueOrigin
+	seen := map[ssa.Value]bool{}
+	var walk func(v ssa.Value, at ssa.Instruction, d int)
+	walk = func(v ssa.Value, at ssa.Instruction, d int) {
+		if phi, ok := v.(*ssa.Phi); ok && d < 6 && !seen[v] {
+			seen[v] = true
+			for i, e := range phi.Edges {
+				p := phi.Block().Preds[i]
+				if len(p.Instrs) == 0 {
+					continue
+				}
+				walk(canon(e), p.Instrs[len(p.Instrs)-1], d+1)
+			}
+			return
+		}
+		out = append(out, valueOrigin{v, at})
+	}
+	walk(v, at, 0)
+	return out
 }
 
 // earlyExits: returns of f that leave a loop from inside its body (the block
